@@ -42,6 +42,12 @@ SnapOf(e) == IF e.a = "CleanEnd" THEN pend ELSE Snapshot
 
 IsClean(e) == (e.a = "Clean" \/ (e.a = "CleanEnd" /\ pend.on)) /\ e.obs.err = ""
 
+\* the recorded log can be compared with the snapshot at all: nothing vanished
+\* between snapshot and swap, and what was appended meanwhile fits in the result
+\* (otherwise the predicates below would index outside the sequences)
+Comparable(b) == /\ NewRecs(b) >= 0 /\ NewSegs(b) >= 0 /\ b.segs # <<>>
+                 /\ Len(log') >= NewRecs(b) /\ Len(segs') >= NewSegs(b) /\ segs' # <<>>
+
 PropOther(e) ==
   CASE e.a = "Append" -> P_Append(e.args.recs)
     [] e.a = "SetHW" -> P_SetHW(e.args.h)
@@ -89,8 +95,9 @@ TsOK == TsMonotone(log) =>
 LostBy(b) ==
   LET snap == SubSeq(log', 1, Len(log') - NewRecs(b))
       \* the most lenient reading: the longest prefix of segments without a survivor
-      dmax == SetMax({d \in 0..Len(b.segs) - 1 :
-                        \A i \in DOMAIN snap : snap[i].off >= b.segs[d + 1].base})
+      ds   == {d \in 0..Len(b.segs) - 1 :
+                  \A i \in DOMAIN snap : snap[i].off >= b.segs[d + 1].base}
+      dmax == IF ds = {} THEN 0 ELSE SetMax(ds)
       cut  == b.segs[IF HasLimits(cc) THEN dmax + 1 ELSE 1].base
       lost == {r \in Required(b.log, b.segs, b.hw) : r.off >= cut /\ ~InSeq(snap, r)}
       \* an empty-keyed record hidden by a later nil-keyed one at or below the HW
@@ -112,7 +119,9 @@ TraceNext ==
      /\ pend' = IF e.a = "Open" \/ e.a = "CleanEnd" THEN NoPend
                 ELSE IF e.a = "CleanBegin" /\ e.win THEN Snapshot ELSE pend
      /\ IF e.a = "Open" THEN TRUE
-        ELSE /\ IF IsClean(e)
+        ELSE /\ IF IsClean(e) /\ ~Comparable(SnapOf(e))
+                THEN Fail("P", e, "C08_Unchanged:not-comparable")
+                ELSE IF IsClean(e)
                 THEN LET b == SnapOf(e) IN
                      /\ Chk(hw' = hw, "P", e, "HW")
                      /\ Chk(P_C08_Unchanged(b), "P", e, "C08_Unchanged")
@@ -123,7 +132,8 @@ TraceNext ==
                      /\ Chk(P_C09_Suffix(b), "P", e, "C09_Suffix")
                      /\ Chk(P_C09_Oldest, "P", e, "C09_Oldest")
                 ELSE Chk(PropOther(e), "P", e, "step")
-             /\ Chk(ImplOf(e), "I", e, "step")
+             /\ IF IsClean(e) /\ ~Comparable(SnapOf(e)) THEN TRUE
+                ELSE Chk(ImplOf(e), "I", e, "step")
      /\ Chk(C01_Ordered', "P", e, "C01_Ordered")
      /\ Chk(CTypeOK', "I", e, "TypeOK")
      /\ Chk(SegsConsistent', "I", e, "SegsConsistent")
